@@ -260,6 +260,10 @@ def materialise(v, cat, rnd, cid):
                     tree, has_tree = t, True
         elif ic in ("sat", "unsat"):
             pool = [t for t, s in zip(c["trees"], sat) if s == (ic == "sat")] or c["trees"]
+            if ic == "unsat" and len(sel) > 1:
+                # prefer inputs that satisfy some but not all of the given constraints (conjunction vs disjunction)
+                some = [t for k, t in enumerate(c["trees"]) if not sat[k] and any(c["sat"][f][k] for f in sel)]
+                pool = some or pool
             tree, has_tree = rnd.choice(pool), True
             text = pj.jyield(tree)
         else:
